@@ -3,26 +3,238 @@
 package dnum
 
 // C27 in-package suite: the unexported div128 (Knuth-D on 32 bit halves) against its
-// specification a*10^16/b, which is how the Lean model defines it. The generator aims at the
-// quotient-correction loops (divisors with a large low half, quotient digits near 2^32).
+// specification a*10^16/b, which is how the Lean model defines it.
+//
+// The quotient-correction branches of divide128 are rare for random coefficients (the overflow
+// of the partial remainder in the high-half loop: about 3 in 10^7), so the generator does not
+// rely on volume: operand pairs are DERIVED from the algorithm (divisors whose normalised high
+// half is just below 2^32, dividends whose top 64 bits are q1*v1 + r with a remainder r in the
+// window where the first estimate is too large and the corrected remainder leaves 32 bits) and
+// an instrumented re-implementation (`classify`) names the branches a pair takes; the suite
+// keeps a quota per branch and writes the per-branch counts into the histogram.
 
 import (
 	"fmt"
 	"math/big"
+	"math/bits"
+	"math/rand"
 	"testing"
 
 	lib "github.com/apmckinlay/gsuneido/util/zzverif"
 )
+
+type divPath struct {
+	q1corr, q0corr   int  // decrements of the two quotient halves
+	q1break, q0break bool // loop left because the partial remainder no longer fits 32 bits
+	q1more, q0more   bool // ... and the (truncated) loop condition would still have been true
+}
+
+func (p divPath) keys() []string {
+	ks := []string{fmt.Sprintf("branch:q1corr=%d", p.q1corr), fmt.Sprintf("branch:q0corr=%d", p.q0corr)}
+	if p.q1break {
+		ks = append(ks, "branch:q1break")
+	}
+	if p.q1more {
+		ks = append(ks, "branch:q1break-cond-still-true")
+	}
+	if p.q0break {
+		ks = append(ks, "branch:q0break")
+	}
+	if p.q0more {
+		ks = append(ks, "branch:q0break-cond-still-true")
+	}
+	return ks
+}
+
+// dividend128 is a * 10^16 as (hi, lo)
+func dividend128(a uint64) (uint64, uint64) { return bits.Mul64(a, e16) }
+
+// classify follows divide128 step by step (same arithmetic) and records the path
+func classify(a, divisor uint64) divPath {
+	var p divPath
+	hi, lo := dividend128(a)
+	shift := uint(bits.LeadingZeros64(divisor))
+	divisor <<= shift
+	v1, v0 := divisor>>32, divisor&longMask
+	dls := lo << shift
+	u1, u0 := uint32(dls>>32), uint32(dls&longMask)
+	tmp1 := (hi << shift) | (lo >> (64 - shift))
+	var q1, r1 uint64
+	if v1 == 1 {
+		q1, r1 = tmp1, 0
+	} else {
+		q1, r1 = tmp1/v1, tmp1%v1
+	}
+	for q1*v0 > make64(uint32(r1), u1) {
+		q1--
+		r1 += v1
+		p.q1corr++
+		if r1 >= divNumBase {
+			p.q1break = true
+			p.q1more = q1*v0 > make64(uint32(r1), u1)
+			break
+		}
+	}
+	u2 := tmp1 & longMask
+	tmp2 := mulsub(uint32(u2), uint32(u1), uint32(v1), uint32(v0), q1)
+	var q0, r2 uint64
+	if v1 == 1 {
+		q0, r2 = tmp2, 0
+	} else {
+		q0, r2 = tmp2/v1, tmp2%v1
+	}
+	for q0*v0 > make64(uint32(r2), u0) {
+		q0--
+		r2 += v1
+		p.q0corr++
+		if r2 >= divNumBase {
+			p.q0break = true
+			p.q0more = q0*v0 > make64(uint32(r2), u0)
+			break
+		}
+	}
+	return p
+}
+
+var bigE16 = new(big.Int).Exp(big.NewInt(10), big.NewInt(16), nil)
+
+// derived builds a pair aimed at the high-half correction: divisor just below 2^k (so the
+// normalised high half v1 = 2^32 - g with small g), top 64 dividend bits = q1*v1 + r with
+// g <= r < q1*v0/2^32: the estimate q1 is too large and the corrected remainder r + v1 >= 2^32.
+func derived(r *rand.Rand) (a, b uint64) {
+	k := uint(50 + r.Intn(4))
+	var d uint64
+	switch r.Intn(3) {
+	case 0:
+		d = 1 + uint64(r.Int63n(1<<uint(k-32))) // g = 1
+	case 1:
+		d = 1 + uint64(r.Int63n(1<<uint(k-32+8))) // g up to 2^8
+	default:
+		d = 1 + uint64(r.Int63n(1<<uint(k-32+20))) // g up to 2^20
+	}
+	b = uint64(1)<<k - d
+	if b < coefMin || b > coefMax {
+		return 0, 0
+	}
+	shift := uint(bits.LeadingZeros64(b))
+	v := b << shift
+	v1, v0 := v>>32, v&longMask
+	g := divNumBase - v1
+	// quotient range so that a is a 16 digit coefficient: q1 ~ a*10^16/b / 2^32
+	lo := new(big.Int).Quo(new(big.Int).Mul(big.NewInt(coefMin), bigE16), new(big.Int).SetUint64(b))
+	hi := new(big.Int).Quo(new(big.Int).Mul(big.NewInt(coefMax), bigE16), new(big.Int).SetUint64(b))
+	qlo, qhi := lo.Rsh(lo, 32).Uint64()+1, hi.Rsh(hi, 32).Uint64()
+	if qhi <= qlo {
+		return 0, 0
+	}
+	q1 := qlo + uint64(r.Int63n(int64(qhi-qlo)))
+	win := (q1 * v0) >> 32 // remainders below this need a correction
+	var rem uint64
+	switch {
+	case win > g && r.Intn(4) != 0:
+		rem = g + uint64(r.Int63n(int64(win-g))) // correction and overflow of the remainder
+	case win > 0:
+		rem = uint64(r.Int63n(int64(win))) // correction without overflow (or none when rem is large)
+	}
+	if r.Intn(6) == 0 {
+		rem = win + uint64(r.Intn(3)) - 1 // the edge of the window (u1 decides)
+	}
+	if rem >= v1 {
+		return 0, 0
+	}
+	tmp1 := new(big.Int).SetUint64(q1)
+	tmp1.Mul(tmp1, new(big.Int).SetUint64(v1)).Add(tmp1, new(big.Int).SetUint64(rem))
+	// smallest a with floor(a*10^16 * 2^shift / 2^64) >= tmp1
+	num := tmp1.Lsh(tmp1, 64-shift)
+	num.Add(num, new(big.Int).Sub(bigE16, big.NewInt(1)))
+	num.Quo(num, bigE16)
+	if !num.IsUint64() {
+		return 0, 0
+	}
+	a = num.Uint64() + uint64(r.Intn(2))
+	return a, b
+}
 
 func TestVerifC27Div128(t *testing.T) {
 	tr := lib.Open()
 	defer tr.Close()
 	r := lib.Rand()
 	n := lib.N(20000)
-	e16 := new(big.Int).Exp(big.NewInt(10), big.NewInt(16), nil)
+	quota := n / 10 // per branch, for the derived stream
+	have := map[string]int{}
+	check := func(a, b uint64, src string) {
+		if b < coefMin || b > coefMax || a < coefMin || a > coefMax {
+			return
+		}
+		p := classify(a, b)
+		for _, k := range p.keys() {
+			tr.Count(k)
+			have[k]++
+		}
+		tr.Count("src:" + src)
+		q := div128(a, b)
+		tr.Q(fmt.Sprintf("div128 %d %d", a, b), fmt.Sprint(q))
+		want := new(big.Int).Mul(new(big.Int).SetUint64(a), bigE16)
+		want.Quo(want, new(big.Int).SetUint64(b))
+		if want.Cmp(new(big.Int).SetUint64(q)) != 0 {
+			sig := "div128-spec"
+			if p.q1break {
+				sig = "div128-spec:q1-remainder-overflow"
+			} else if p.q0break {
+				sig = "div128-spec:q0-remainder-overflow"
+			}
+			tr.Fail(sig, fmt.Sprintf("div128(%d, %d) = %d, a*10^16/b = %s (path %+v)", a, b, q, want, p))
+		}
+		// the public operation on the same coefficients
+		z := Div(Dnum{a, signPos, 1}, Dnum{b, signPos, 1})
+		exp := New(signPos, want.Uint64(), 0)
+		if !Equal(z, exp) {
+			tr.Fail("div-coef", fmt.Sprintf("Div(.%d, .%d) = %v, expected %v", a, b, z, exp))
+		}
+	}
+	// witnesses of the remainder-overflow path and their neighbourhood
+	for _, w := range [][2]uint64{{7399277442958125, 1124878057708072}, {4556062839348134, 4503504567342440}} {
+		check(w[0], w[1], "witness")
+		for i := 0; i < 20; i++ {
+			check(w[0]+uint64(r.Intn(2000))-1000, w[1], "witness-neighbour")
+		}
+	}
+	// derived stream: keep a pair when one of its branches is still below quota
+	// (a second decrement of q1 is impossible here: the quotient is below 10^17 < 2^57, so q1 < 2^25
+	// and q1*v0 < 2^57 can never exceed a corrected remainder (r + v1) * 2^32 >= 2^63)
+	rare := []string{"branch:q1break", "branch:q1break-cond-still-true", "branch:q1corr=1",
+		"branch:q0break", "branch:q0break-cond-still-true", "branch:q0corr=2"}
+	for tries := 0; tries < 40*n; tries++ {
+		full := true
+		for _, k := range rare[:3] {
+			if have[k] < quota {
+				full = false
+			}
+		}
+		if full {
+			break
+		}
+		a, b := derived(r)
+		if a == 0 || b < coefMin || b > coefMax || a < coefMin || a > coefMax {
+			continue
+		}
+		p := classify(a, b)
+		keep := false
+		for _, k := range p.keys() {
+			for _, rk := range rare {
+				if k == rk && have[k] < quota {
+					keep = true
+				}
+			}
+		}
+		if keep {
+			check(a, b, "derived")
+		}
+	}
+	// general stream
 	for i := 0; i < n; i++ {
 		var a, b uint64
-		switch r.Intn(6) {
+		switch r.Intn(7) {
 		case 0: // normalised coefficients
 			a = coefMin + uint64(r.Int63n(coefMax-coefMin+1))
 			b = coefMin + uint64(r.Int63n(coefMax-coefMin+1))
@@ -38,20 +250,18 @@ func TestVerifC27Div128(t *testing.T) {
 		case 4:
 			a = []uint64{coefMin, coefMax, coefMin + 1, coefMax - 1}[r.Intn(4)]
 			b = []uint64{coefMin, coefMax, coefMin + 1, coefMax - 1}[r.Intn(4)]
+		case 5: // divisor just below a power of two: normalised high half close to 2^32
+			a = coefMin + uint64(r.Int63n(coefMax-coefMin+1))
+			b = uint64(1)<<uint(50+r.Intn(4)) - 1 - uint64(r.Int63n(1<<uint(20+r.Intn(24))))
 		default:
 			a = coefMin + uint64(r.Int63n(coefMax-coefMin+1))
 			b = uint64(1)<<uint(50+r.Intn(4)) + uint64(r.Int63n(1<<32))
 		}
-		if b < coefMin || b > coefMax || a < coefMin || a > coefMax {
-			continue
+		check(a, b, "general")
+	}
+	for _, k := range rare {
+		if have[k] == 0 {
+			tr.Count("branch-never-reached:" + k)
 		}
-		q := div128(a, b)
-		tr.Q(fmt.Sprintf("div128 %d %d", a, b), fmt.Sprint(q))
-		want := new(big.Int).Mul(new(big.Int).SetUint64(a), e16)
-		want.Quo(want, new(big.Int).SetUint64(b))
-		if want.Cmp(new(big.Int).SetUint64(q)) != 0 {
-			tr.Fail("div128-spec", fmt.Sprintf("div128(%d, %d) = %d, a*10^16/b = %s", a, b, q, want))
-		}
-		tr.Count(fmt.Sprintf("div128:case%d", i%1))
 	}
 }
